@@ -39,10 +39,9 @@ func c03(r *Report) {
 	c03NoKeyCache(r)
 
 	// (3)
-	sj := p.Func("crypto", "", "SignJWS")
-	r.Gate(Gate{ID: "C03.jwkheader.no-private-jwk", Fn: sj, Effect: CallEffect(Fn(jwsPkg, "", "Sign")),
-		Check: CallCheck(Fn(jwkPkg, "Key", "Raw"), -1, NonNil), Alt: []Check{CmpCheck("headers.JWK() == nil", token.EQL, CallV(Fn(jwsPkg, "Headers", "JWK"), -1), NilV(), true)}})
-	c03RawTargetIsSigner(r, sj)
+	// the jwk-header guard (SignJWS and SignJWT) is decided in c03Audit4: since the audit repair it is isPublicJWK, a type switch
+	// that rules out every non-public key type first (the earlier Raw(&crypto.Signer) probe missed X25519 and symmetric keys)
+	c03Audit4(r)
 
 	// (4)
 	var stores []Site
@@ -82,7 +81,7 @@ func c03(r *Report) {
 	gormZeroValue(r, "C03.kid-lookup.no-struct-condition", "a lookup for kid \"\" would match some other key", 1, nil, "crypto")
 
 	// (5)
-	c03Audit(r, p.Func("crypto", "Crypto", "New"), Fn("gorm.io/gorm", "DB", "Save"))
+	c03Audit(r, p.Func("crypto", "Crypto", "New"), AnyOf(Fn("gorm.io/gorm", "DB", "Create"), Fn("gorm.io/gorm", "DB", "Save")))
 	c03Audit(r, p.Func("crypto", "Crypto", "Delete"), p.FnOrImpl("crypto/storage/spi", "Storage", "DeletePrivateKey"))
 	c03Audit(r, p.Func("crypto", "Crypto", "DecryptJWE"), Fn(jwePkg, "", "Decrypt"))
 	c03Audit(r, p.Func("crypto", "", "SignJWS"), Fn(jwsPkg, "", "Sign"))
